@@ -12,6 +12,8 @@ import (
 	"fmt"
 	"sync"
 	"time"
+
+	"github.com/usnistgov/dastard/lancero"
 )
 
 var verifC17Once sync.Once
@@ -83,7 +85,7 @@ func (c *VerifC17Control) Close() { close(c.hbStop) }
 // must script the same number of batches.  done is closed when the first producer is asked for the
 // first batch beyond its script; the reader loop then stays parked inside ReadAllPackets until
 // release() is called (afterwards every read returns no packets).
-func (c *VerifC17Control) VerifC17AbacoScript(prods []*VerifScriptedProducer) (done <-chan struct{}, release func(), err error) {
+func (c *VerifC17Control) VerifC17AbacoScript(prods []*VerifScriptedProducer, unwrap bool) (done <-chan struct{}, release func(), err error) {
 	if len(prods) == 0 {
 		return nil, nil, fmt.Errorf("no producers")
 	}
@@ -91,6 +93,9 @@ func (c *VerifC17Control) VerifC17AbacoScript(prods []*VerifScriptedProducer) (d
 	d := make(chan struct{})
 	r := make(chan struct{})
 	as.unwrapOpts = AbacoUnwrapOptions{}
+	if unwrap { // as ConfigureAbacoSource's defaults: rescale the raw data and unwrap the phase
+		as.unwrapOpts = AbacoUnwrapOptions{RescaleRaw: true, Unwrap: true, ResetAfter: 20000, PulseSign: 1}
+	}
 	as.producers = make([]PacketProducer, 0, len(prods))
 	for i, p := range prods {
 		if len(p.Batches) != len(prods[0].Batches) {
@@ -146,4 +151,59 @@ func (c *VerifC17Control) VerifC17Stall(d time.Duration) error {
 // nobody waits.  (The reader's own timeout is a 5 s constant; closing abortSelf is the same exit path.)
 func (c *VerifC17Control) VerifC17AbacoEnds() {
 	closeIfOpen(c.SC.abaco.abortSelf)
+}
+
+// VerifC17GoPublishers makes THIS PROCESS consume the two record-publication channels itself, the way
+// another publisher would: one goroutine per channel takes every batch of records and, a little later
+// (a publisher may lag by part of a block: the channels are 500 deep), reads every field and every
+// sample of every record - in Go, whereas the ZMQ publishers of startSocket let libzmq (C) read the
+// samples.  Must be called before the first VerifC17NewControl of the process; returns false when the
+// channels exist already.
+func VerifC17GoPublishers() bool {
+	if PubRecordsChan != nil || PubSummariesChan != nil {
+		return false
+	}
+	PubRecordsChan = make(chan []*DataRecord, 500)
+	PubSummariesChan = make(chan []*DataRecord, 500)
+	consume := func(ch chan []*DataRecord, conv func(*DataRecord) [][]byte) {
+		sum := 0
+		for records := range ch {
+			time.Sleep(2 * time.Millisecond)
+			for _, rec := range records {
+				for _, part := range conv(rec) {
+					sum += len(part)
+				}
+				for _, v := range rec.data {
+					sum += int(v)
+				}
+			}
+		}
+		_ = sum
+	}
+	go consume(PubRecordsChan, messageRecords)
+	go consume(PubSummariesChan, messageSummaries)
+	return true
+}
+
+// VerifC17LanceroNoHardware plays the role of ConfigureLanceroSource for one simulated card
+// (lancero.NoHardware, ncols x nrows): the Lancero source of this SourceControl will read from it at the
+// next Start("LANCEROSOURCE").  (Configure itself needs ~/.cringe/cringeGlobals.json.)
+func (c *VerifC17Control) VerifC17LanceroNoHardware(ncols, nrows, linePeriod int) error {
+	lan, err := lancero.NewNoHardware(ncols, nrows, linePeriod)
+	if err != nil {
+		return err
+	}
+	ls := new(LanceroSource)
+	ls.name = "Lancero"
+	ls.nsamp = 1
+	ls.channelsPerPixel = 2
+	ls.clockMHz = 125
+	ls.firstRowChanNum = 1
+	dev := &LanceroDevice{card: lan, devnum: 0, nrows: nrows, lsync: linePeriod, clockMHz: 125}
+	ls.devices = map[int]*LanceroDevice{0: dev}
+	ls.ncards = 1
+	ls.active = []*LanceroDevice{dev}
+	ls.heartbeats = c.SC.heartbeats
+	c.SC.lancero = ls
+	return nil
 }
